@@ -1160,8 +1160,18 @@ def oracle_cbtf(seed):
     with warnings.catch_warnings():
         warnings.simplefilter("ignore")
         tf = cb.cbtf(Mi, Bi, Ki, a, freq, bset, save=save)
-        if save is not None:  # the cached solver must give the same answer for another input
-            tf = cb.cbtf(Mi, Bi, Ki, a, freq, bset, save=save)
+        if save is not None:
+            # the documented loop over several base inputs with one `save` dict: an earlier result must not change
+            # when the routine is called again, and the cached solver must give the right answer for the next input
+            snap = {nm: np.array(getattr(tf, nm), copy=True) for nm in ("d", "v", "a", "frc")}
+            a2 = np.asarray(a) * -1.5 + 0.25
+            tf2 = cb.cbtf(Mi, Bi, Ki, a2, freq, bset, save=save)
+            for nm in ("d", "v", "a", "frc"):
+                if np.asarray(getattr(tf, nm)).tobytes() != snap[nm].tobytes():
+                    _fail(out, "cbtf-save-earlier-result-overwritten", "a result returned by cbtf(..., save=save) changes when cbtf is "
+                          "called again with the same save dict and another base acceleration (field %s)" % nm, inp, None, None)
+                    return out
+            tf = cb.cbtf(Mi, Bi, Ki, a, freq, bset, save=save)  # third call, first input again
     W = 2 * math.pi * freq
     worst = 0.0
     qset = np.setdiff1d(np.arange(n), bset)
